@@ -45,7 +45,7 @@ def _evaluate(pid, tier, model, quiet):
 def _new_findings(ctx):
     known = {(k["rule"], k["instance"], k.get("statement", "")) for k in load_known()
              if k.get("property") == ctx.pid and k.get("status") == "known"}
-    return [o for o in ctx.findings if Ctx.key(o) not in known]
+    return [o for o in ctx.findings if Ctx.key(o) not in known and (o["rule"], o["instance"], "*") not in known]
 
 
 def run_property(pid, tier, model=None, quiet=False, write=True, model_cache=None):
